@@ -199,8 +199,9 @@ func genOpts(r *simrt.Rand, cfg genCfg) Opts {
 	if !dflt() {
 		o.LevelMultiplier = pick(r, []int{2, 3, 9})
 	}
+	o.BufferPages = 4
 	if !dflt() {
-		o.BufferPages = pick(r, []int{1, 2, 0})
+		o.BufferPages = pick(r, []int{1, 1, 2, 3, 8, 0})
 	}
 	o.CompactionSync = r.Chance(0.3)
 	if !dflt() {
